@@ -61,7 +61,7 @@ class Circuit:
             if cast_n_qubits <= 0:
                 raise ValueError("Non-positive value passed.")
 
-            self._n_qubits = n_qubits
+            self._n_qubits = cast_n_qubits
         else:
             self._n_qubits = _circuit_size_by_operations(self._operations)
 
